@@ -198,13 +198,13 @@ def modeOf (anti : Bool) (m : OMap Nat) : TV :=
       if st.1.isEmpty || (if anti then p.2 < st.2 else p.2 > st.2) then (p.1, p.2) else st) (([] : Bytes), 0)
     { v := .str best, text := some best }
 
+/-- Insert before the first element that collates strictly greater (stable). -/
+def insTV (t : TV) : List TV → List TV
+  | [] => [t]
+  | h :: rest => if cmpNumeric t.render h.render < 0 then t :: h :: rest else h :: insTV t rest
+
 /-- Insertion sort by the numeric collation (`mlrval.LessThan`), stable. -/
-def sortTVs (vs : List TV) : List TV :=
-  vs.foldl (fun acc t =>
-    let rec ins : List TV → List TV
-      | [] => [t]
-      | h :: rest => if cmpNumeric t.render h.render < 0 then t :: h :: rest else h :: ins rest
-    ins acc) []
+def sortTVs (vs : List TV) : List TV := vs.foldl (fun acc t => insTV t acc) []
 
 /-- `GetPercentileNonInterpolated`: index = int(p*n/100) clamped. (p integral here.) -/
 def percentileIndex (p n : Nat) : Nat :=
@@ -241,21 +241,74 @@ def Acc.emit (a : Acc) (name : String) : Option TV :=
 
 /-- stats1 -a accs -f valueFields [-g groupFields] (no regexes, no -s, no sliding windows).
 Per group: per value field (in order of first presence) the named accumulators. -/
+def nameBytes (s : String) : Bytes := s.toList.map Char.toNat
+
+/-- Name lists are de-duplicated at construction (first appearance kept). -/
+def uniqNames {α} [BEq α] (l : List α) : List α := l.foldl (fun acc x => if acc.contains x then acc else acc ++ [x]) []
+
+def stats1Upd (valueFields : List Bytes) (st : OMap Acc) (r : Rec) : OMap Acc :=
+  valueFields.foldl (fun st f =>
+    match get r f with
+    | none => st
+    | some txt =>
+      let a := (st.get? f).getD {}
+      if txt.isEmpty then st.put f { a with nullCount := a.nullCount + 1 }
+      else st.put f (a.ingest (tvOfText txt))) st
+
+def stats1Emit (accs : List String) (groupFields : List Bytes) (gvals : List Bytes) (st : OMap Acc) : Option Rec :=
+  st.foldlM (fun (acc : Rec) (f, a) => do
+    let kvs ← accs.mapM fun name => (a.emit name).map fun t => (f ++ [95] ++ name.toList.map Char.toNat, t.render)
+    pure (kvs.foldl (fun acc p => Rec.put acc p.1 p.2) acc)) (groupRec groupFields gvals)
+
 def stats1 (accs : List String) (valueFields groupFields : List Bytes) (xs : List Rec) : Option (List Rec) :=
-  let upd (st : OMap Acc) (r : Rec) : OMap Acc :=
-    valueFields.foldl (fun st f =>
-      match get r f with
-      | none => st
-      | some txt =>
-        let a := (st.get? f).getD {}
-        if txt.isEmpty then st.put f { a with nullCount := a.nullCount + 1 }
-        else st.put f (a.ingest (tvOfText txt))) st
-  let groups := groupFold groupFields ([] : OMap Acc) upd xs
-  groups.mapM fun (_, (gvals, st)) => do
-    let stats ← st.foldlM (fun (acc : Rec) (f, a) => do
-      let kvs ← accs.mapM fun name => (a.emit name).map fun t => (f ++ [95] ++ name.toList.map Char.toNat, t.render)
-      pure (kvs.foldl (fun acc p => Rec.put acc p.1 p.2) acc)) (groupRec groupFields gvals)
-    pure stats
+  (groupFold groupFields ([] : OMap Acc) (stats1Upd (uniqNames valueFields)) xs).mapM
+    fun p => stats1Emit (uniqNames accs) groupFields p.2.1 p.2.2
+
+
+/-! ### merge-fields (per record; -f name list, -r regexes, -c collapse) -/
+
+def emitInto (accs : List String) (base : Bytes) (a : Acc) (r : Rec) : Option Rec :=
+  accs.foldlM (fun rec name => (a.emit name).map fun t => Rec.put rec (base ++ [95] ++ nameBytes name) t.render) r
+
+def dropUnless (keep : Bool) (r : Rec) (k : Bytes) : Rec := if keep then r else r.filter (fun p => p.1 != k)
+
+/-- merge-fields -a accs -f names -o out [-k]. -/
+def mergeByNames (accs : List String) (names : List Bytes) (out : Bytes) (keep : Bool) (r : Rec) : Option Rec :=
+  let st := (uniqNames names).foldl (fun (st : Acc × Rec) f =>
+    match get st.2 f with
+    | none => st
+    | some txt =>
+      if txt.isEmpty then (st.1, dropUnless keep st.2 f)
+      else (st.1.ingest (tvOfText txt), dropUnless keep st.2 f)) (({} : Acc), r)
+  emitInto (uniqNames accs) out st.1 st.2
+
+/-- merge-fields -a accs -r regexes -o out [-k]: the record's fields in order. -/
+def mergeByRegex (accs : List String) (regexes : List (Regex.Re × Nat × Bytes)) (out : Bytes) (keep : Bool) (r : Rec) : Option Rec :=
+  let st := r.foldl (fun (st : Acc × Rec) p =>
+    if regexes.any (Regex.matchCompiled · p.1) then
+      if p.2.isEmpty then (st.1, dropUnless keep st.2 p.1)
+      else (st.1.ingest (tvOfText p.2), dropUnless keep st.2 p.1)
+    else st) (({} : Acc), r)
+  emitInto (uniqNames accs) out st.1 st.2
+
+/-- The name with the first match of the regex removed (`lib.RegexCompiledSub(name, regex, "")`). -/
+def removeFirstMatch (c : Regex.Re × Nat × Bytes) (s : Bytes) : Bytes :=
+  match Regex.search c.1 s c.2.2 0 with
+  | some (b, e, _) => s.take b ++ s.drop e
+  | none => s
+
+/-- merge-fields -a accs -c regexes [-k]: fields whose names collapse to the same short name are
+accumulated together; one set of outputs per short name, in first-appearance order. -/
+def mergeCollapse (accs : List String) (regexes : List (Regex.Re × Nat × Bytes)) (keep : Bool) (r : Rec) : Option Rec :=
+  let st := r.foldl (fun (st : OMap Acc × Rec) p =>
+    match regexes.find? (Regex.matchCompiled · p.1) with
+    | none => st
+    | some c =>
+      let short := removeFirstMatch c p.1
+      let a := (st.1.get? short).getD {}
+      if p.2.isEmpty then (st.1.put short a, dropUnless keep st.2 p.1)
+      else (st.1.put short (a.ingest (tvOfText p.2)), dropUnless keep st.2 p.1)) (([] : OMap Acc), r)
+  st.1.foldlM (fun rec p => emitInto (uniqNames accs) p.1 p.2 rec) st.2
 
 /-! ### step (steppers without look-ahead) -/
 
@@ -303,7 +356,7 @@ def stepVerb (steppers : List String) (fields groupFields : List Bytes) :
     | none => (m, [r])
     | some gk =>
       let g := (m.get? gk).getD []
-      let (g', r') := fields.foldl (fun (st : OMap (OMap StepState) × Rec) f =>
+      let (g', r') := (uniqNames fields).foldl (fun (st : OMap (OMap StepState) × Rec) f =>
         let (gs, rec) := st
         match get r f with
         | none =>
@@ -313,7 +366,7 @@ def stepVerb (steppers : List String) (fields groupFields : List Bytes) :
            | none => (gs, rec))
         | some txt =>
           let ss := (gs.get? f).getD []
-          let (ss', rec') := steppers.foldl (fun (st2 : OMap StepState × Rec) name =>
+          let (ss', rec') := (uniqNames steppers).foldl (fun (st2 : OMap StepState × Rec) name =>
             let (ssm, rc) := st2
             let s0 := (ssm.get? (name.toList.map Char.toNat)).getD {}
             let (s1, outs) := stepOne name f s0 txt
